@@ -239,7 +239,7 @@ func GetAttr(v Value, attr Value, args ...Value) (Value, error) {
 	switch r.Kind() {
 	case reflect.Struct:
 		strval := CoerceString(attr)
-		retval = r.FieldByName(strval)
+		retval = fieldByName(r, strval)
 		if !retval.IsValid() {
 			var err error
 			retval, err = getMethod(v, strval)
@@ -305,6 +305,25 @@ func GetAttr(v Value, attr Value, args ...Value) (Value, error) {
 		return nil, fmt.Errorf("getattr: attribute \"%s\" on \"%v\" is not exported", attr, v)
 	}
 	return retval.Interface(), nil
+}
+
+// fieldByName is r.FieldByName(name), except that a field promoted from an
+// embedded struct pointer that is nil does not exist (FieldByName panics).
+func fieldByName(r reflect.Value, name string) reflect.Value {
+	sf, ok := r.Type().FieldByName(name)
+	if !ok {
+		return reflect.Value{}
+	}
+	for _, i := range sf.Index {
+		if r.Kind() == reflect.Ptr {
+			if r.IsNil() {
+				return reflect.Value{}
+			}
+			r = r.Elem()
+		}
+		r = r.Field(i)
+	}
+	return r
 }
 
 // hashable reports whether v can be looked up in a map without panicking: the
